@@ -47,6 +47,13 @@ CANDIDATES = [
 ]
 
 
+# components that rewrite or project the line; kept apart because C08's statement excludes them
+REWRITE = [
+    "append(\"ap{i}\", #{h})", "append(\"aq{i}\", count(), yes())", "replace(#{h}, upper(#{h}))", "replace(#{g}, \"***\")", "replace({h}, concat(#{h}, \"!\"))",
+    "collect(0, {h})", "collect({h})",
+]
+
+
 def main():
     from verifsim import sim, seams, world as W, ops
 
@@ -55,7 +62,7 @@ def main():
     ok, bad = [], []
     with W.World(csvpath_policy=["collect"]) as w:
         w.write_csv("src/f.csv", rows)
-        for c in CANDIDATES:
+        for c in CANDIDATES + REWRITE:
             comp = c.replace("{i}", "0").replace("{h}", "1").replace("{g}", "2")
             try:
                 with ops.quiet():
@@ -77,7 +84,7 @@ def main():
     W.remove_base()
     out = os.path.join(os.path.dirname(os.path.dirname(os.path.abspath(__file__))), "verifsim", "zoo.json")
     with open(out, "w", encoding="utf-8") as f:
-        json.dump(ok, f, indent=0)
+        json.dump({"zoo": [c for c in ok if c not in REWRITE], "rewrite": [c for c in ok if c in REWRITE]}, f, indent=0)
     print(f"accepted {len(ok)} of {len(CANDIDATES)}")
     for c, why in bad:
         print("  rejected:", c, "|", why)
